@@ -12,7 +12,7 @@ Definition arith_op (c : ascii) : bool :=
 Definition scalar_op (c : ascii) (a b : val) : res val :=
   if Ascii.eqb c "+" then Ok (vadd a b) else if Ascii.eqb c "-" then Ok (vsub a b)
   else if Ascii.eqb c "*" then Ok (vmul a b) else if Ascii.eqb c "/" then vdiv_raw a b
-  else if Ascii.eqb c "^" then Err TypeError
+  else if Ascii.eqb c "^" then vpow a b
   else if Ascii.eqb c ">" then Ok (vbool (vgt a b)) else if Ascii.eqb c "<" then Ok (vbool (vlt a b)) else Err Other.
 
 Definition bin_sem (c : ascii) (dl dr : dval) : res dval :=
